@@ -86,9 +86,13 @@ fn timeout_handler(data: TimerData) {
     }
 
     let event_data = unsafe { &mut *data.event_data };
+    #[cfg(may_verif)]
+    may_queue::verif::point(may_queue::verif::site::IO_TIMEOUT_HANDLER_ENTER, 0);
     // remove the event timer
     event_data.timer.borrow_mut().take();
 
+    #[cfg(may_verif)]
+    may_queue::verif::point(may_queue::verif::site::IO_TIMEOUT_TIMER_TAKEN, 0);
     // get and check the coroutine
     let mut co = match event_data.co.take() {
         Some(co) => co,
@@ -150,6 +154,8 @@ impl EventData {
             None => return, // it's already take by selector
         };
 
+        #[cfg(may_verif)]
+        may_queue::verif::point(may_queue::verif::site::IO_SCHEDULE_TOOK, 0);
         // it's safe to remove the timer since we are running the timer_list in the same thread
         #[cfg(feature = "io_timeout")]
         self.timer.borrow_mut().take().map(|h| {
@@ -173,6 +179,8 @@ impl EventData {
             None => return, // it's already take by selector
         };
 
+        #[cfg(may_verif)]
+        may_queue::verif::point(may_queue::verif::site::IO_SCHEDULE_TOOK, 0);
         // it's safe to remove the timer since we are running the timer_list in the same thread
         #[cfg(feature = "io_timeout")]
         self.timer.borrow_mut().take().map(|h| {
